@@ -45,8 +45,9 @@ def harness():
     return fw.build_harness("k1_sync", ["-fno-access-control", "-std=gnu++20"])
 
 
-def run_impl(cases, jobs=None):
-    """run every case (int list) on the real library; returns a list of parsed logs (see parse)"""
+def run_impl(cases, jobs=None, raw=False):
+    """run every case (int list) on the real library; returns a list of parsed logs (see parse), or with raw=True the
+    list of token lists printed by the harness (split-mode cases of C07 have their own record kinds)"""
     exe = harness()
     jobs = jobs or max(1, min(12, fw.NCPU - 2))
     chunks = [cases[i::jobs] for i in range(jobs)]
@@ -64,6 +65,8 @@ def run_impl(cases, jobs=None):
     for j, r in enumerate(res):
         for k, l in enumerate(r):
             outs[j + k * jobs] = l
+    if raw:
+        return [[int(x) for x in l.split()] for l in outs]
     return [parse(l) for l in outs]
 
 
